@@ -116,6 +116,8 @@ func (o op) line() string {
 		return fmt.Sprintf("%s i%s %d", o.Kind, hexs(o.ID), o.Now)
 	case "clear", "s.clear":
 		return fmt.Sprintf("%s %d", o.Kind, o.Now)
+	case "find":
+		return "find i" + hexs(o.ID)
 	}
 	return "unknown-op"
 }
@@ -191,9 +193,56 @@ type world struct {
 	changed bool
 }
 
-func newWorld() *world {
+// config is how the model is constructed: NewModel(WithInitialMode(Modes…), WithInitialActiveMode(Active)).
+// The zero config is NewModel() (no modes, blank placeholder active mode).
+type config struct {
+	Modes  []mode `json:"modes,omitempty"`
+	Active *mode  `json:"active,omitempty"`
+}
+
+func (c config) placeholderID() string {
+	if c.Active != nil {
+		return c.Active.ID
+	}
+	return ""
+}
+
+// line renders the configuration for the Lean driver.
+func (c config) line() string {
+	if c.Active == nil && len(c.Modes) == 0 {
+		return "reset"
+	}
+	a := mode{}
+	if c.Active != nil {
+		a = *c.Active
+	}
+	ms := "-"
+	if len(c.Modes) > 0 {
+		xs := make([]string, len(c.Modes))
+		for i, m := range c.Modes {
+			xs[i] = m.String()
+		}
+		ms = strings.Join(xs, ";")
+	}
+	return "config " + a.String() + " " + ms
+}
+
+func newWorld() *world { return newWorldCfg(config{}) }
+
+func newWorldCfg(c config) *world {
 	w := &world{clk: &fakeClock{}, rng: &scriptReader{}}
-	w.model = electricpb.NewModel(electricpb.WithClock(w.clk), resource.WithRNG(w.rng))
+	opts := []resource.Option{electricpb.WithClock(w.clk), resource.WithRNG(w.rng)}
+	if len(c.Modes) > 0 {
+		ms := make([]*traits.ElectricMode, len(c.Modes))
+		for i, m := range c.Modes {
+			ms[i] = m.proto()
+		}
+		opts = append(opts, electricpb.WithInitialMode(ms...))
+	}
+	if c.Active != nil {
+		opts = append(opts, electricpb.WithInitialActiveMode(c.Active.proto()))
+	}
+	w.model = electricpb.NewModel(opts...)
 	w.server = electricpb.NewModelServer(w.model)
 	return w
 }
@@ -265,6 +314,14 @@ func (w *world) exec(o op) (out string, err error, panicked bool) {
 		case "clear":
 			m, err = w.model.ChangeToNormalMode()
 			out = res(m, true, err)
+		case "find":
+			var ok bool
+			m, ok = w.model.FindMode(o.ID)
+			if ok {
+				out = res(m, true, nil)
+			} else {
+				out = "err:NotFound" // FindMode reports absence by ok == false
+			}
 		case "s.create":
 			m, err = w.server.CreateMode(bg, &electricpb.CreateModeRequest{Mode: o.Mode.proto()})
 			out = res(m, true, err)
